@@ -30,7 +30,7 @@ PROPS = {
                   # pvlower: what builder.go emits, read back and run, against the reference evaluation of the AST;
                   # pve2e -ref: the whole chain from the grammar TEXT (front-end, builder, go build, runtime) against the
                   # reference interpreter on the AST that was printed
-                  tools=[("pvlower", 1200, 40000, []), ("pve2e", 40, 1200, ["-ref"])]),
+                  tools=[("pvlower", 2500, 40000, []), ("pve2e", 40, 1200, ["-ref"])]),
     "C02": h1prop("PigeonVerif.Properties.C02", P(["trace_ctx"]),
                   [("blocks", 5000, 150000), ("state", 2000, 50000), ("memo", 1000, 30000), ("lr", 1000, 30000), ("utf8", 1000, 20000),
                    # recovery expressions share the label scope of the expression they guard
@@ -54,15 +54,15 @@ PROPS = {
                   [("lr", 12000, 400000)], twins=twins_c08, twin_rel=rel_c08, level="other", mid_leaders=(3000, 40000), lrwf=True,
                   variants=[v for v in core.ALL_VARIANTS if v[5] == "1"],
                   explanation="every generated left-recursive case is run on the real generated parser (all 8 LeftRecursion template variants, Memoize on/off) and on the Lean model (full result incl. values, errors, stores, block trace), and — for direct left recursion without predicates — on the plain parser of its iterative twin grammar, which must match the same prefix"),
-    "C09": dict(module="PigeonVerif.Properties.C09", run=tool_check.run_c09, level="other",
-                rule="translation validation of the real ast.Optimize: generated well-formed grammars (leaf rules referenced from several places, nested choices/sequences, adjacent single-rune literals and classes with and without i and ^, adjacent literals, predicates, labels, actions, code predicates, state blocks, throw/recover, random alternate entrypoints) are optimized on an independent copy; original and optimized AST are run by an independent reference PEG interpreter (harness/pvref) on ~12 inputs per entrypoint and compared on acceptance, consumed prefix and the full list of code-block invocations (text, pos, canonical label values); plus entrypoint survival, dangling references, parameter lists, fixpoint",
+    "C09": dict(module="PigeonVerif.Properties.C09", run=tool_check.run_c09, level="translation_validation",
+                rule="translation validation of the real ast.Optimize: generated well-formed grammars (leaf rules referenced from several places, nested choices/sequences, adjacent single-rune literals and classes with and without i and ^, adjacent literals, predicates, labels, actions, code predicates, state blocks, throw/recover, random alternate entrypoints) are optimized on an independent copy; original and optimized AST are run by an independent reference PEG interpreter (harness/pvref) on ~12 inputs per entrypoint and compared on acceptance, consumed prefix and the full list of code-block invocations (text, pos, canonical label values); plus entrypoint survival, dangling references, parameter lists",
                 explanation="the optimizer is validated against a reference interpreter on generated grammars (execution); Lean proves each rewrite sound as a law of denotational PEG recognition in every context"),
     "C10": h1prop("PigeonVerif.Properties.C10", P(["val", "errs"]),
                   [("mixed", 6000, 200000), ("blocks", 3000, 60000), ("state", 2000, 50000), ("lr", 1500, 40000)],
                   twins=twins_c10, twin_rel=rel_c10,
                   # what builder.go emits with and without -optimize-parser, read back and run, against the reference
                   # evaluation of the AST: a lowering that differs between the two templates shows here
-                  tools=[("pvlower", 1200, 30000, [])]),
+                  tools=[("pvlower", 2500, 30000, [])]),
     "C11": h1prop("PigeonVerif.Properties.C11", P(["val", "errs"]),
                   [("panic", 3000, 90000), ("blocks", 2500, 60000), ("lr", 4000, 100000), ("utf8", 500, 10000)], oracles=[orc_c11]),
     "C12": h1prop("PigeonVerif.Properties.C12", P(["errs", "mf"]),
@@ -75,7 +75,7 @@ PROPS = {
     "C15": h1prop("PigeonVerif.Properties.C15", P(["val", "pos", "errs", "mf"]),
                   [("core", 6000, 200000), ("utf8", 2000, 50000), ("blocks", 1000, 20000)],
                   twins=twins_c15, twin_rel=rel_c15, variants=[v for v in core.ALL_VARIANTS if v.endswith("b1")],
-                  tools=[("pvlower", 800, 30000, [])]),
+                  tools=[("pvlower", 2500, 30000, [])]),
     "C16": h1prop("PigeonVerif.Properties.C16", P(["val", "cnt", "errs"]),
                   [("budget", 6000, 200000), ("memo", 1000, 30000)], oracles=[orc_c16], phase2=phase2_c16,
                   twins=twins_c16_memo, twin_rel=rel_none),
